@@ -248,12 +248,22 @@ func init() {
 					iters = "400"
 				}
 				start := time.Now()
-				cmd := exec.Command(bin, "racepass", iters)
+				limit := 240 * time.Second
+				if r.Thorough {
+					limit = 20 * time.Minute
+				}
+				ctx, cancel := context.WithTimeout(context.Background(), limit)
+				cmd := exec.CommandContext(ctx, bin, "racepass", iters)
 				cmd.Env = append(os.Environ(), "GORACE=halt_on_error=1 exitcode=66")
 				outb, err := cmd.CombinedOutput()
+				hung := ctx.Err() != nil
+				cancel()
 				out := string(outb)
 				rp := map[string]interface{}{"iterations": iters, "wall_s": time.Since(start).Seconds(), "goroutines": []int{2, 8, 64}, "exhaustive": false}
 				switch {
+				case hung:
+					rp["result"] = "hang"
+					r.Violation("racepass/hang", fmt.Sprintf("the free-running pass (real goroutines calling Send/DialAndSend concurrently) did not finish within %v: deadlock or livelock", limit), map[string]string{"racepass": iters}, nil)
 				case strings.Contains(out, "WARNING: DATA RACE"):
 					rp["result"] = "DATA RACE"
 					site := "unknown"
